@@ -14,7 +14,7 @@ build() { # build <variant> <cargo args...>
   fi
 }
 case "$ID" in
-  C01|C02|C03|C04|C05|C07|C08|C09|C10|C11|C12|C13|C16|C17|C18)
+  C01|C02|C03|C04|C05|C07|C08|C09|C10|C11|C12|C13|C16|C17|C18|C19)
     build rel cargo build --release --offline
     exec "$B/rel/release/mc" "$ID" "$@" ;;
   C06)
